@@ -179,6 +179,8 @@ static void do_len(long L)
         if (x[i] == 0 || x[j] == 0xff) continue;
         cmp_case("opp2", x, y, len, 0, (long) i, (long) j);
     }
+    /* equal differences in two 16-byte lanes (cancel in a verifier that XORs lanes): same bit at i and i+16k */
+    if (len >= 32) { vf_pat(x, len, PAT_R1, 9); for (i = 0; i < 8 * 16; i++) for (j = 16; j + 16 <= len; j += 16) { memcpy(y, x, len); y[i >> 3] ^= (unsigned char) (1u << (i & 7)); y[(i >> 3) + j] ^= (unsigned char) (1u << (i & 7)); cmp_case("twolane", x, y, len, (int) (i & 15), (long) i, (long) j); } }
     /* carry / borrow chains of every (start, length) */
     for (i = 0; i < len; i++) for (j = 1; i + j <= len; j++) {
         size_t k;
